@@ -111,11 +111,17 @@ func readHeaderSize(reader io.ReaderAt) (int64, error) {
 	return headerSize, nil
 }
 
+// maxHeaderSize bounds the header (65536 prefix/offset pairs of 10 bytes plus metadata).
+const maxHeaderSize = 16 << 20
+
 func readHeader(reader io.ReaderAt) (map[[2]byte]uint64, map[string]string, int64, error) {
 	// read header size:
 	headerSize, err := readHeaderSize(reader)
 	if err != nil {
 		return nil, nil, 0, fmt.Errorf("failed to read header size: %w", err)
+	}
+	if headerSize > maxHeaderSize {
+		return nil, nil, 0, fmt.Errorf("invalid header size: %d", headerSize)
 	}
 	// read header bytes:
 	headerBuf := make([]byte, headerSize)
